@@ -8,7 +8,7 @@ from vlib import core, gen, gosrc
 PROP = "C06"
 META = {
     "technique": "Coq proof: refinement of an executable model of linkedBuffer/bufferSlice/allocator/done/moveTo to a byte queue via a global inductive invariant (store well-formedness, ownership of every slot as multiset accounting, send buffer, header chains, receive buffer) preserved by every operation; tie: differential execution of the real linkedBuffer pair (real moveToWithoutLock/readMore, heap-backed bufferManager, small classes) against the model on generated op sequences, plus an independent byte-queue oracle",
-    "level_text": "Theorem C06 (= C06_full): for every size-class configuration with positive capacities, every slot count, every op sequence over the whole op set (all writer ops, Flush, all reader ops of any size incl. 0 and more than available, both releases, recycle, the reused reset slice, allocate/overwrite/free by other owners) the model never panics and agrees op by op with the byte queue (bytes, n, Len of both buffers, Peek consumes nothing, oversized reads block), independent of transport (single slice, multi-slice, heap fallback, chains with empty slices, fallback after shm). C06_no_panic, C06_step (the invariant), C06_move_to (transfer lemma), C06_write_bytes / C06_reserve (writer refinement in every allocator state), size-0 regression theorems. Both directions of a stream pair (Model dstep, swap decision of Stream.ReleaseReadAndReuse translated from stream.go on every run into Gen/SwitchC06.v): theorem C06_duplex - for every configuration and every op sequence of both directions incl. ReleaseReadAndReuse by either stream (swap, adopted slice, echo) the model agrees op by op with two byte queues and never panics, under the explicit guard that ReleaseReadAndReuse is not called with written-but-unflushed bytes (C06_duplex_unguarded_refuted: without the guard the swap moves them into the read buffer - the documented misuse); C06_reuse_keeps_unread; C06_duplex_invariant_op/_reuse.",
+    "level_text": "Theorem C06 (= C06_full): for every size-class configuration with positive capacities, every slot count, every op sequence over the whole op set (all writer ops, Flush, all reader ops of any size incl. 0 and more than available, both releases, recycle, the reused reset slice, allocate/overwrite/free by other owners) the model never panics and agrees op by op with the byte queue (bytes, n, Len of both buffers, Peek consumes nothing, oversized reads block), independent of transport (single slice, multi-slice, heap fallback, chains with empty slices, fallback after shm). C06_no_panic, C06_step (the invariant), C06_move_to (transfer lemma), C06_write_bytes / C06_reserve (writer refinement in every allocator state), size-0 regression theorems. Two transports: the model's flush takes the sticky fallback flag from Gen/SwitchC07.v (translated from Stream.Flush; C06's proof is about that variant), C06_transport_keeps_order (any resumption pattern of a queue-first receiver delivers in flush order) and C06_nonsticky_transport_reorders. Both directions of a stream pair (Model dstep, swap decision of Stream.ReleaseReadAndReuse translated from stream.go on every run into Gen/SwitchC06.v): theorem C06_duplex - for every configuration and every op sequence of both directions incl. ReleaseReadAndReuse by either stream (swap, adopted slice, echo) the model agrees op by op with two byte queues and never panics, under the explicit guard that ReleaseReadAndReuse is not called with written-but-unflushed bytes (C06_duplex_unguarded_refuted: without the guard the swap moves them into the read buffer - the documented misuse); C06_reuse_keeps_unread; C06_duplex_invariant_op/_reuse.",
     "level_note": "Trusted: coqc kernel; the hand-written model is tied to /repo by sampled differential runs (sizes relative to slice capacities, exhaustion, fallback, empty slices in chains); negative sizes and uint32 truncation of sizes are outside the model; sequential (one writer, one reader per direction; the lock-free allocator is C01/C02); Stream.Flush is mirrored without queue/socket (level (i)).",
 }
 
@@ -64,12 +64,68 @@ def write_switch(sw):
                 fh.write(txt)
 
 
+SWITCH8_FILE = os.path.join(core.COQ, "theories", "Gen", "SwitchC08.v")
+
+
+def scan_sweep():
+    """Translator for the sweep of the callback goroutine (stream.go, startCallbackGoroutine): after the OnData loop
+    `if <cond> { s.pendingData.clear(); s.recvBuf.recycle() }`.  Returns (needs_closed, error)."""
+    try:
+        src = open(os.path.join(core.REPO, "stream.go")).read()
+    except OSError as ex:
+        return None, "cannot read stream.go: %s" % ex
+    i = src.find("func (s *Stream) startCallbackGoroutine() {")
+    if i < 0:
+        return None, "cannot find Stream.startCallbackGoroutine in stream.go"
+    j = src.find("\n}\n", i)
+    body = re.sub(r"/\*.*?\*/", "", src[i:j], flags=re.S)
+    body = re.sub(r"//[^\n]*", "", body)
+    flat = re.sub(r"\s+", " ", body)
+    ms = re.findall(r"if ([^{}]*) \{ s\.pendingData\.clear\(\) s\.recvBuf\.recycle\(\) \}", flat)
+    if len(ms) != 1 or flat.count("s.recvBuf.recycle()") != 1:
+        return None, "startCallbackGoroutine no longer has exactly one guarded sweep `if cond { pendingData.clear(); recvBuf.recycle() }`"
+    cond = ms[0].strip()
+    if cond == "s.getStreamState() == uint32(streamClosed)":
+        return True, None
+    if cond == "!s.IsOpen()":
+        return False, None
+    return None, "startCallbackGoroutine: unknown sweep condition %r" % cond
+
+
+def write_switch8(needs_closed):
+    txt = ("(* GENERATED from /repo's stream.go by props/C06.py (mechanism G for the sweep of the callback goroutine,\n"
+           "   used by Model/LinkedBuffer.step RPeerClose). Do not edit. *)\n"
+           "(* true: the sweep after the OnData loop (pendingData.clear + recvBuf.recycle) runs only when the stream is\n"
+           "   CLOSED locally; false: it also runs when only the peer has closed (half closed) *)\n"
+           "Definition sw_sweep_needs_closed : bool := %s.\n" % ("true" if needs_closed else "false"))
+    with core.Lock("coq"):
+        old = open(SWITCH8_FILE).read() if os.path.exists(SWITCH8_FILE) else None
+        if old != txt:
+            with open(SWITCH8_FILE, "w") as fh:
+                fh.write(txt)
+
+
 def ensure_switch(run):
     sw, err = scan_reuse()
     if err:
         run.add_corr_break("G: " + err, shape=True)
         sw = (True, True)      # the model keeps the shape it was proved for; the harness decides
     write_switch(sw)
+    # the sticky fallback flag of Stream.Flush: C07's translator and switch file (Gen/SwitchC07.v) are reused
+    try:
+        from props import C07 as c07
+        sticky, _desc, serr = c07.scan_switch()
+        if serr:
+            run.add_corr_break("G: " + serr, shape=True)
+        else:
+            c07.write_switch(sticky)
+    except Exception as ex:  # C07's plugin not importable: keep the file that is there
+        run.notes.append("C07 translator not available: %r" % (ex,))
+    nc, err8 = scan_sweep()
+    if err8:
+        run.add_corr_break("G: " + err8, shape=True)
+        nc = True
+    write_switch8(nc)
     return sw
 
 
@@ -104,6 +160,8 @@ def op1_to_coq(o):
         return "RRelease"
     if k == "CL":
         return "RClose"
+    if k == "PC":
+        return "RPeerClose"
     if k == "OA":
         return "OAlloc %d" % n
     if k == "OF":
@@ -121,9 +179,9 @@ def obs_to_coq(o):
 
 
 def case_to_coq(c):
-    cfg = core.coq_list(["(%d, %d)" % (a, b) for a, b in c["cfg"]])
+    cfg = core.coq_list(["(%d, %d)" % (a, b) for a, b in (c.get("cfg") or [])])
     return "{| c_cfg := %s; c_ops := %s; c_obs := %s |}" % (
-        cfg, core.coq_list([op_to_coq(o) for o in c["ops"]]), core.coq_list([obs_to_coq(o) for o in c["obs"]]))
+        cfg, core.coq_list([op_to_coq(o) for o in (c.get("ops") or [])]), core.coq_list([obs_to_coq(o) for o in (c.get("obs") or [])]))
 
 
 FIELD = {1: "outcome class (ok/error/panic/blocked)", 2: "numeric result", 3: "length of the returned bytes",
@@ -186,9 +244,10 @@ def run_harness(prop, test, n, seed, tag, files=None, n2=None):
 
 
 def short_case(c, upto=None):
-    ops = c["ops"] if upto is None else c["ops"][:upto + 1]
-    return {"id": c["id"], "mode": c.get("mode"), "cfg": c["cfg"], "ops": ops,
-            "obs": (c["obs"] if upto is None else c["obs"][:upto + 1])}
+    allops, allobs = c.get("ops") or [], c.get("obs") or []
+    ops = allops if upto is None else allops[:upto + 1]
+    return {"id": c["id"], "mode": c.get("mode"), "cfg": c.get("cfg") or [], "ops": ops,
+            "obs": (allobs if upto is None else allobs[:upto + 1]), "feat": c.get("feat")}
 
 
 def digest(prop, run, cases, own_prefix):
@@ -206,10 +265,10 @@ def digest(prop, run, cases, own_prefix):
             run.add_oracle_failure(sig, what, short_case(c))
         fs = set(c.get("feat") or [])
         if fs & {"multi-slice-read", "fallback", "blocked", "panic"}:
-            distinct.add(json.dumps([c["cfg"], c["ops"]]))
+            distinct.add(json.dumps([(c.get("cfg") or []), (c.get("ops") or [])]))
         for f in fs:
             feats[f] = feats.get(f, 0) + 1
-        for o in c["ops"]:
+        for o in c.get("ops") or []:
             ops[o["k"]] = ops.get(o["k"], 0) + 1
     return feats, len(distinct), ops
 
@@ -231,10 +290,10 @@ def size_distribution(cases):
     """sizes relative to the class capacities of the case"""
     d = {}
     for c in cases:
-        caps = [a for a, _ in c["cfg"]]
+        caps = [a for a, _ in (c.get("cfg") or [])]
         if not caps:
             continue
-        for o in c["ops"]:
+        for o in (c.get("ops") or []):
             if o["k"] not in ("WB", "WR", "WS", "WW", "RB", "PK", "DC", "RS", "RD"):
                 continue
             n = o.get("n", 0)
@@ -285,14 +344,16 @@ def check(run):
                 "non-trivial = a read spanning several slices, a fallback flush, a blocked read or a reproduced panic; distinct by (config, ops)",
         "samples": [short_case(c) for c in cases[2:4]],
         "features": feats, "ops": ops, "sizes_relative_to_class_caps": size_distribution(cases),
-        "total_ops": sum(len(c["ops"]) for c in cases),
+        "total_ops": sum(len((c.get("ops") or [])) for c in cases),
         "search_selftest_histories": len(st_cases),
         "switch_reuse_swap_needs": {"recvBuf.len == 0": sw[0], "sliceList.size() == 1": sw[1]},
-        "level_i_histories": sum(1 for c in cases if c.get("mode") != "c06s"),
-        "level_ii_histories": sum(1 for c in cases if c.get("mode") == "c06s"),
+        "level_i_histories": sum(1 for c in cases if c.get("mode") not in ("c06s", "c06m")),
+        "level_ii_histories": sum(1 for c in cases if c.get("mode") in ("c06s", "c06m")),
+        "level_ii_mixed_transport_histories": sum(1 for c in cases if c.get("mode") == "c06m"),
         "level_ii_note": "level (ii) = real session pair, real Stream.Flush/writeFallback/socket/event loop/handleFallbackData/readMore; "
                          "all shm slots held by the harness so every flush is a fallback delivery; the reader lags behind several arrivals; "
-                         "the model evaluates these histories with no size class (cfg = [])",
+                         "the model evaluates these histories with no size class (cfg = []); mixed transport (c06m): real session pair with ONE 4096-byte class and free shm, one stream alternates "
+                         "socket-sized (Reserve above the class) and shm-sized flushes while the receiver's event loop is blocked in a helper stream's callback, then the reader's byte sequence is compared",
     })
     run.assumptions += [
         "sizes are non-negative and below 2^31 (negative sizes move the indices backwards in Discard/Reserve; uint32 truncation not modelled)",
